@@ -8,9 +8,12 @@ import json, os
 from . import common
 
 
+MAXREGS = {"MCDispatch_quick.cfg": 2, "MCDispatch_thorough.cfg": 3, "MCDispatch_sim.cfg": 7}
+
+
 def edge_run(ctx, cfg, what, extra=(), timeout=3600):
     out_dir = ctx.subdir("disp-" + cfg.replace(".cfg", ""))
-    rc, out, tl = ctx.pipe_tlc_to_drv("MCDispatch.tla", cfg, ["disp-edges", "-out", out_dir], workers=1, extra=extra, timeout=timeout, what=what)
+    rc, out, tl = ctx.pipe_tlc_to_drv("MCDispatch.tla", cfg, ["disp-edges", "-out", out_dir, "-maxregs", str(MAXREGS[cfg])], workers=1, extra=extra, timeout=timeout, what=what)
     s = ctx.summary_line(out)
     if s is None or rc not in (0, 1):
         raise common.Inconclusive("dispatch edge driver died (rc=%s): %s" % (rc, out[-3000:]))
